@@ -190,6 +190,16 @@ def popargs_probe(cherrypy):
     return rows
 
 
+def popargs_rejects_unknown_keyword(cherrypy):
+    """`handler=` is the only keyword `popargs` knows: anything else is a TypeError at decoration time (a
+    misspelt `handler` must not silently become "no handler")."""
+    try:
+        cherrypy.popargs('a', handlr=None)
+    except TypeError:
+        return True
+    return False
+
+
 def popargs_probe_table(cherrypy):
     def nm(s):
         return '[%s]' % ', '.join(str(ord(c)) for c in s)
@@ -221,8 +231,11 @@ def popargsProbe : List (List (List Nat) × Nat ×
     List (List (List Nat) × List (List Nat) × List (List Nat × List Nat) × List (List Nat × List Nat) × Nat)) :=
   [%s]
 
+/-- `cherrypy.popargs('a', handlr=None)` raised TypeError -/
+def popargsRejectsUnknownKeyword : Bool := %s
+
 end CpModel.Gen.C02
-''' % ',\n   '.join(rows)
+''' % (',\n   '.join(rows), 'true' if popargs_rejects_unknown_keyword(cherrypy) else 'false')
 
 
 # ----------------------------------------------------------------------------------------------
@@ -708,6 +721,8 @@ def compare(exp, obs, kind):
 # ----------------------------------------------------------------------------------------------
 def tree_variants(spec):
     import copy
+    if spec.get('sections'):
+        yield {k: v for k, v in spec.items() if k != 'sections'}
     for n, nd in enumerate(spec['nodes']):
         for field in ('kids', 'meth', 'vals'):
             for j in range(len(nd.get(field, []))):
@@ -774,7 +789,10 @@ def gc_tree(spec):
         if isinstance(d.get('ret'), list) and d['ret'][1] is not None:
             d['ret'][1] = idx[d['ret'][1]]
         out.append(nd)
-    return {'nodes': out}
+    res = {'nodes': out}
+    if spec.get('sections'):
+        res['sections'] = spec['sections']
+    return res
 
 
 def shrink_generic(case, variants, fails, budget=500):
@@ -903,11 +921,14 @@ def has_mut(spec):
 
 
 def run_tree(spec, kind, reqs, purity=False, instrument=True, front=None):
-    """Build the tree, run the requests; returns (built, view, [obs], [line])."""
+    """Build the tree, run the requests; returns (built, view, [obs], [line]).
+    `spec['sections']` (optional): application config sections {path: {key: value}}."""
     built = T.Built(spec, instrument=instrument)
     reqs = [_rq(r) for r in reqs]
     paths = [r[0] for r in reqs]
-    runner = T.Runner(built, kind, front=front)
+    sections = spec.get('sections') or {}
+    runner = T.Runner(built, kind, sections=sections, front=front)
+    secs = ';'.join('%s|%s' % (T.enc_text(k), T.enc_conf(v)) for k, v in sections.items()) or '-'
 
     def one(r):
         p, m, q, b, h = r
@@ -929,12 +950,12 @@ def run_tree(spec, kind, reqs, purity=False, instrument=True, front=None):
     lines = []
     for o, (p, m, q, b, h) in zip(obs, reqs):
         pi = o['path_info'] if o['path_info'] is not None else p
-        lines.append(' '.join([kind, T.enc_text(m.upper()), root, na, nodes, '-', T.enc_text(pi)]))
+        lines.append(' '.join([kind, T.enc_text(m.upper()), root, na, nodes, secs, T.enc_text(pi)]))
         if front is not None and o.get('outer_path') is not None:
             o['front_line'] = front_line(front, o['outer_path'], h)
         if instrument and o.get('disp_log'):
             # the same request for `find_handler` over the table of the dispatcher calls that were seen
-            o['fline'] = ' '.join(['F', kind, T.enc_text(m.upper()), root, na, nodes_f, '-', T.enc_text(pi),
+            o['fline'] = ' '.join(['F', kind, T.enc_text(m.upper()), root, na, nodes_f, secs, T.enc_text(pi),
                                    disp_table(view, o['disp_log'])])
     return built, view, obs, lines, again
 
@@ -1139,6 +1160,16 @@ def gen_levels(rng, kind='D'):
             nd['meth'].append(['index', {'exp': _mark(rng, 0.8)}])
         if rng.random() < (0.75 if not leaf else 0.5):
             nd['meth'].append(['default', {'exp': _mark(rng, 0.8)}])
+        # `_cp_config` on objects and handlers: no clause of this property reads it (C08 does), but the walk
+        # collects it on the way and the model has to walk the same way
+        r = rng.random()
+        if r < 0.1:
+            nd['conf'] = {'c02.k%d' % i: i}
+        elif r < 0.14:
+            nd['conf'] = {'tools.staticdir.dir': 'static%d' % i}
+        for name, m in nd['meth']:
+            if rng.random() < 0.1:
+                m['conf'] = {'c02.m': name}
         used = {n for n, _ in nd['meth']}
         if rng.random() < 0.5:
             name = rng.choice(['a', 'b', 'a_b', 'x_y', 'c'])
@@ -1269,6 +1300,14 @@ def gen_batch_levels(rng, n_trees, reqs_per_tree=10):
         kind = 'M' if i % 6 == 5 else 'D'
         spec = gen_levels(rng, kind)
         reqs = [_rich_req(rng, kind, gen_path_levels(rng, spec)) for _ in range(reqs_per_tree)]
+        if i % 12 == 7:
+            # application config sections along one of the paths (read by C08; here: walked past)
+            segs = [x for x in reqs[0][0].split('/') if x]
+            spec['sections'] = {'/' + '/'.join(segs[:k]): {'c02.s%d' % k: k} for k in range(1, len(segs) + 1)}
+        if i % 10 == 4:
+            front, reqs = gen_front(rng, spec, reqs)
+            batch.append((spec, kind, reqs, i % 3 == 0, True, front))
+            continue
         # every eighth tree runs without the recording wrappers (model comparison and the weak clauses only)
         batch.append((spec, kind, reqs, i % 3 == 0, i % 8 != 7))
     return batch
@@ -1381,7 +1420,10 @@ def run_mounts(case):
 
     def make_root(i):
         def default(self, *a, **kw):
-            journal.append((i, list(a), cherrypy.request.script_name, cherrypy.request.path_info))
+            # `tree.script_name()` without argument: the mount of the request being served
+            env = cherrypy.request.wsgi_environ
+            journal.append((i, list(a), env.get('SCRIPT_NAME'), env.get('PATH_INFO'), tree.script_name(),
+                            cherrypy.request.script_name))
             return 'ok'
         default.exposed = True
         return type('Mount%d' % i, (object,), {'default': default, 'index': default})()
@@ -1435,7 +1477,7 @@ def check_mounts(ctx, cases):
     lines, meta = [], []
     for case in cases:
         keys, obs = run_mounts(case)
-        apps = ','.join(T.enc_text(k) for k in keys) or '-'
+        apps = '=' + ','.join(T.enc_text(k) for k in keys)
         for (sn0, pi), o in zip(case['reqs'], obs):
             single = {'mounts': case['mounts'], 'reqs': [[sn0, pi]]}
             ctx.case(single, nontrivial=True, key=json.dumps(single, sort_keys=True))
@@ -1466,12 +1508,117 @@ def check_mounts(ctx, cases):
             got = {'status': o['status'], 'ran': o['ran']}
         else:
             sn, rest = [T.dec_text(x) for x in mline.split(' ')]
-            exp = {'script_name': sn, 'path_info': rest}
-            got = {'script_name': o['ran'][0][2], 'path_info': o['ran'][0][3]} if len(o['ran']) == 1 else \
+            # what Tree.__call__ put into the environ of the application it chose
+            exp = {'SCRIPT_NAME': sn, 'PATH_INFO': rest, 'tree.script_name()': sn, 'request.script_name': sn}
+            got = {'SCRIPT_NAME': o['ran'][0][2], 'PATH_INFO': o['ran'][0][3], 'tree.script_name()': o['ran'][0][4],
+                   'request.script_name': o['ran'][0][5]} if len(o['ran']) == 1 else \
                 {'status': o['status'], 'ran': o['ran']}
         if exp != got:
             ctx.disagree(single, got, {'model_line': mline, 'expected': exp},
                          'mount chosen by Tree.__call__ / path_info handed to the application differ')
+
+
+# ----------------------------------------------------------------------------------------------
+# which lines of the anchored functions does the run execute?  (sys.monitoring, LINE events on those code
+# objects only; every location is switched off after its first hit, so the cost is negligible)
+# ----------------------------------------------------------------------------------------------
+class Coverage:
+    TOOL = 3      # an id no debugger / coverage / profiler uses by convention
+
+    def __init__(self):
+        self.codes = {}       # code object -> label
+        self.hit = set()      # (filename, line)
+        self.on = False
+
+    def anchored(self):
+        cherrypy = T.cp()
+        from cherrypy import _cpdispatch, _helper, _cptree, _cprequest
+        from cherrypy.lib import xmlrpcutil
+        fns = [
+            ('Dispatcher.__call__', _cpdispatch.Dispatcher.__call__),
+            ('Dispatcher.find_handler', _cpdispatch.Dispatcher.find_handler),
+            ('MethodDispatcher.__call__', _cpdispatch.MethodDispatcher.__call__),
+            ('PageHandler.__call__', _cpdispatch.PageHandler.__call__),
+            ('LateParamPageHandler.kwargs', _cpdispatch.LateParamPageHandler.kwargs.fget),
+            ('VirtualHost', _cpdispatch.VirtualHost),
+            ('XMLRPCDispatcher', _cpdispatch.XMLRPCDispatcher),
+            ('xmlrpcutil.patched_path', xmlrpcutil.patched_path),
+            ('expose', _helper.expose),
+            ('popargs', _helper.popargs),
+            ('Tree.script_name', _cptree.Tree.script_name),
+            ('Tree.__call__', _cptree.Tree.__call__),
+            ('Request.get_resource', _cprequest.Request.get_resource),
+        ]
+        out = {}
+
+        def add(label, code):
+            out[code] = label
+            for c in code.co_consts:
+                if hasattr(c, 'co_code'):
+                    add(label + '.' + c.co_name, c)
+        for label, f in fns:
+            code = getattr(f, '__code__', None)
+            if code is not None:
+                add(label, code)
+        return out
+
+    def start(self):
+        import sys
+        mon = getattr(sys, 'monitoring', None)
+        if mon is None or self.on:
+            return
+        try:
+            self.codes = self.anchored()
+            if mon.get_tool(self.TOOL) is None:
+                mon.use_tool_id(self.TOOL, 'verif-c02-lines')
+            hit = self.hit
+
+            def on_line(code, line):
+                hit.add((code.co_filename, line))
+                return mon.DISABLE
+            mon.register_callback(self.TOOL, mon.events.LINE, on_line)
+            for code in self.codes:
+                mon.set_local_events(self.TOOL, code, mon.events.LINE)
+            self.on = True
+        except Exception:
+            self.on = False
+
+    def stop(self):
+        import sys
+        mon = getattr(sys, 'monitoring', None)
+        if mon is None or not self.on:
+            return
+        try:
+            for code in self.codes:
+                mon.set_local_events(self.TOOL, code, 0)
+            mon.register_callback(self.TOOL, mon.events.LINE, None)
+            mon.free_tool_id(self.TOOL)
+        except Exception:
+            pass
+        self.on = False
+
+    def report(self):
+        """{label: ["<line>: <source>", …]} for the lines that never ran, and the totals."""
+        import linecache
+        missing, total, ran = {}, 0, 0
+        for code, label in self.codes.items():
+            lines = sorted({l for _, _, l in code.co_lines() if l is not None and l != code.co_firstlineno})
+            nested = set()
+            for c in code.co_consts:
+                if hasattr(c, 'co_code'):
+                    nested.update(l for _, _, l in c.co_lines() if l is not None and l != c.co_firstlineno)
+            for l in lines:
+                if l in nested:
+                    continue
+                total += 1
+                if (code.co_filename, l) in self.hit:
+                    ran += 1
+                else:
+                    missing.setdefault(label, []).append('%d: %s' % (l, linecache.getline(code.co_filename, l).strip()))
+        return missing, total, ran
+
+
+COV = Coverage()
 
 
 def enum_small():
@@ -1508,19 +1655,24 @@ def enum_disp():
     """Exhaustive small scope for `_cp_dispatch`: every generated dispatcher form on the root (and the same form on
     the child) x every child shape x paths that hit / miss attributes before, at and after the dispatcher."""
     import itertools
-    disps = [{'t': 'popargs_cls', 'n': n} for n in (0, 1, 2)]
-    for n in (0, 1, 2):
+    disps = [{'t': 'popargs_cls', 'n': n} for n in (0, 1, 2, 3)]
+    for n in (0, 1, 2, 3):
         for h in (None, ['obj', 2], ['fn', 1], ['fn', None]):
             disps.append({'t': 'popargs_attr', 'n': n, 'h': h})
-    for pop in (0, 1, 2):
-        for ret in ('self', 'peek', ['fixed', 1], ['fixed', None]):
+    for pop in (0, 1, 2, 3):
+        for ret in ('self', 'peek', 'popget', ['fixed', 1], ['fixed', None]):
             for add in ([], ['a']):
+                if pop == 3 and add:
+                    continue
                 disps.append({'t': 'custom', 'pop': pop, 'add': add, 'ret': ret})
+    for mut in ('popback', 'lower', 'reverse', 'clear', 'rename0', 'rename1'):
+        for ret in ('self', ['fixed', 1]):
+            disps.append({'t': 'custom', 'pop': 1, 'add': [], 'ret': ret, 'mut': mut})
     disps.append({'t': 'custom', 'pop': 1, 'add': [], 'ret': ['fixed', 1], 'exp': True})
     disps.append({'t': 'value', 'v': 'text'})
     shapes = list(itertools.product([None, True], [0, 2], [0, 1, 2], [False, True]))
     paths = ['/', '/a', '/a/', '/zz', '/zz/', '/zz/a', '/zz/b', '/zz/zz', '/zz/zz/b', '/a/zz', '/a/zz/b', '/zz/a/b/',
-             '/zz/zz/zz/zz', '/b', '/zz/index', '/zz/default/x']
+             '/zz/zz/zz/zz', '/b', '/zz/index', '/zz/default/x', '/zz/zz/zz/b', '/zz/Zz/zz/zz/x%2Fy/', '/zz/zz/zz/zz/a/b']
 
     def node(shape, kids, disp=None, nocall=False):
         exp, idx, dfl, call = shape
@@ -1586,7 +1738,7 @@ def _worker(args):
     sub.rng = random.Random(seed)
     sub.lean = _WORKER_LEAN[0]
     check_batch(sub, gen_batch(sub.rng, n_trees))
-    check_batch(sub, gen_batch_levels(sub.rng, n_trees // 2))
+    check_batch(sub, gen_batch_levels(sub.rng, n_trees // 3))
     return _export(sub)
 
 
@@ -1603,13 +1755,14 @@ _WORKER_LEAN = [None]
 
 
 def _export(sub):
-    return {'evaluations': sub.evaluations, 'nontrivial': list(sub._nontrivial), 'hist': sub.hist,
+    return {'lines_hit': sorted(COV.hit), 'evaluations': sub.evaluations, 'nontrivial': list(sub._nontrivial), 'hist': sub.hist,
             'oracle_failures': sub.oracle_failures, 'disagreements': sub.disagreements,
             'compared': sub.disagreements_checked, 'lines': sub.driver.lines if sub.driver else 0,
             'samples': sub.samples[:2]}
 
 
 def _merge(ctx, res):
+    COV.hit.update(tuple(x) for x in res.get('lines_hit', []))
     ctx.evaluations += res['evaluations']
     ctx._nontrivial.update(res['nontrivial'])
     for k, v in res['hist'].items():
@@ -1627,6 +1780,24 @@ def _merge(ctx, res):
 
 
 def run(ctx):
+    COV.start()
+    try:
+        _run(ctx)
+    finally:
+        missing, total, ran = COV.report() if COV.codes else ({}, 0, 0)
+        COV.stop()
+        if total:
+            ctx.extra['anchored_lines_not_executed'] = missing
+            ctx.extra['anchored_lines'] = {'total': total, 'executed': ran}
+
+
+def _run(ctx):
+    # the popargs probe behind Gen/C02Popargs.lean (theorem C02_popargs_probe) ran in tables(), before the line
+    # monitor was on: run it under the monitor too, so that its lines count as executed by the check
+    try:
+        popargs_probe_table(T.cp())
+    except Exception:
+        pass
     for c in corpus_cases():
         check_case(ctx, c)
         ctx.count('corpus')
@@ -1655,7 +1826,7 @@ def run(ctx):
 
 def search(ctx, around=None):
     """Deeper oracle-only hunt (called when the proof or the correspondence broke)."""
-    if around is not None:
+    if around is not None and 'tree' in around:
         spec, kind = around['tree'], around['kind']
         reqs = [_case_req(around)]
         for _ in range(60):
@@ -1666,12 +1837,12 @@ def search(ctx, around=None):
         if ctx.oracle_failures:
             return
     # trees full of dispatchers, judged through what the recording wrappers saw
-    check_batch(ctx, gen_batch_levels(ctx.rng, 600), compare_model=False)
+    check_batch(ctx, gen_batch_levels(ctx.rng, 300), compare_model=False)
     if ctx.oracle_failures:
         return
     # dispatcher-free trees get the full reference resolver
     batch = []
-    for i in range(1500):
+    for i in range(800):
         kind = 'M' if i % 4 == 3 else 'D'
         spec = gen_tree(ctx.rng, kind, with_disp=False)
         reqs = [(gen_path(ctx.rng, spec), ctx.rng.choice(REQ_METHODS) if kind == 'M' else 'GET') for _ in range(10)]
@@ -1693,9 +1864,13 @@ def replay(ctx, case):
     print('request:', case['method'], case['path'], '(dispatcher %s)' % kind,
           'query=%r body=%r' % (case.get('query'), case.get('body')))
     print('impl   :', json.dumps(strip_obs(obs[0])))
-    m = ctx.model(lines)
+    m = ctx.model(lines) if not has_mut(spec) else None
     if m:
         print('model  :', m[0], '->', json.dumps(model_expectation(m[0], view, kind)))
+    if obs[0].get('fline'):
+        m = ctx.model([obs[0]['fline']])
+        if m:
+            print('model/F:', m[0], '->', json.dumps(model_expectation(m[0], view, kind)))
     print('oracle :', oracle(built, case, obs[0]) or 'holds')
     if case.get('history'):
         print('history:', case['history'])
